@@ -708,6 +708,20 @@ class _PreemptAt(object):
         return choices[0]
 
 
+def unbox_threads_model(chk):
+    res = tlc.require_ok(tlc.run_tlc("RpycUnboxThreads", "MC_RpycUnboxThreads.cfg", workers=2, coverage=True), "RpycUnboxThreads")
+    if res.violation:
+        raise tlc.MachineryError("RpycUnboxThreads (one look-up, locked increment) violates " + res.violation)
+    chk.add_tlc(res, "RpycUnboxThreads: two serving threads unboxing a reference to the same object while the program drops handles: "
+                "NothingLost, Accounting")
+    for cfgf, want, what in (("MC_RpycUnboxThreads_twolookups.cfg", "NothingLost", "test-then-get on the weak cache (pinned tree)"),
+                             ("MC_RpycUnboxThreads_racyincr.cfg", "Accounting", "unlocked count += 1 (pinned tree)")):
+        r = tlc.run_tlc("RpycUnboxThreads", cfgf, workers=2)
+        if r.violation != want:
+            raise tlc.MachineryError("%s is expected to violate %s, TLC says %r" % (cfgf, want, r.violation))
+        chk.add_tlc(r, "RpycUnboxThreads, %s: counterexample (its schedule is among the forced preemptions executed on the real code)" % what)
+
+
 def unbox_drop_races(chk):
     """the holder is used by two threads: its serving thread unboxes a fresh reference to k while the program drops its last
     handle on k's proxy - at every source line of _unbox / _netref_factory.  The fresh reference must arrive as a live proxy
@@ -963,6 +977,7 @@ def main():
     suite_traces.validate_refs(chk, PID, chans, "%d test files: %s" % (len(files), summary))
     both_directions(chk)
     refcoll_race(chk)
+    unbox_threads_model(chk)
     unbox_drop_races(chk)
     concurrent_unbox_races(chk)
     chk.assumptions += [
